@@ -26,7 +26,8 @@
 (*             formulas of the code against the Gaussian conditional on    *)
 (*             the data set with point i deleted.                          *)
 (*  "lattice"  the cells of the float64 replay (kernel x mean x likelihood *)
-(*             x batch x prior assignment x objective x solver setting)    *)
+(*             x batch x prior assignment x objective x solver setting x   *)
+(*             registration form x history of the evaluated object)        *)
 (*             with the terms the definition contains in each cell.        *)
 (*                                                                         *)
 (* Repairs = the repairs present in the tree under test ({} is HEAD).      *)
@@ -42,10 +43,32 @@
 (* the conventional sub-lattice), PredictionsSharp (at HEAD the cells that *)
 (* miss the definition are exactly the unconventional ones), SumOK,        *)
 (* RationalOK, LatticeOK.                                                  *)
+(*                                                                         *)
+(*  "history"  a state machine over HOW a prior was registered (argument   *)
+(*             of the module's constructor: a bound method of the module;  *)
+(*             register_prior with a closure and a setting closure: plain  *)
+(*             functions; register_prior with the NAME of the parameter:   *)
+(*             a function made inside register_prior) and over what        *)
+(*             happened to the model objects before the objective is       *)
+(*             evaluated: hyperparameters changed (through the setters /   *)
+(*             in place on the raw parameters), copy.deepcopy, a freshly   *)
+(*             built model that loads the state_dict, a pickle round trip. *)
+(*             Every object carries the GENERATION of its hyperparameter   *)
+(*             values; every registered closure carries what Python keeps  *)
+(*             of it (deepcopy / pickle re-bind a bound method to the new  *)
+(*             module and keep a function as it is).  Invariant HistoryOK: *)
+(*             in every reachable state, for every live model object, each *)
+(*             prior term of its objective is the density at the CURRENT   *)
+(*             constrained value of the parameter of THIS object.  Slips = *)
+(*             modelled slips of the code ({} is the tree): with           *)
+(*             "name_captures_self" (the name-made function reads the      *)
+(*             registering module instead of its argument) TLC must find   *)
+(*             register-by-name, deepcopy, set, evaluate.                  *)
 (***************************************************************************)
 EXTENDS LinAlg
 
-CONSTANTS Part, Repairs, Archs, Batches, Ns, MaxModels, Instances
+CONSTANTS Part, Repairs, Archs, Batches, Ns, MaxModels, Instances,
+          RegMenu, HistLen, MaxObjs, MaxGen, SetHows, Slips      \* part "history"
 
 VARIABLES c,       \* the enumerated configuration / instance / cell
           out      \* what the spec says must be observed (+ what the transcribed code computes)
@@ -194,10 +217,10 @@ AsmConfigs ==
 
 \* where HEAD's shape inference and memo-less traversal are right: no module with a prior on two paths, and an unbatched
 \* parameter shows only singleton dimensions where the objective has batch dimensions
-Conventional(cf) ==
-  /\ ~(cf.arch = "shared" /\ cf.pri[4] # "none")
-  /\ \A k \in Slots : (cf.pri[k] = "flat") =>
+ShapeConventional(cf) ==
+  \A k \in Slots : (cf.pri[k] = "flat") =>
         LET tl == SiteTail(cf.arch, k) IN \A i \in 1..IMin(Len(cf.B), Len(tl)) : tl[i] = 1
+Conventional(cf) == ~(cf.arch = "shared" /\ cf.pri[4] # "none") /\ ShapeConventional(cf)
 
 AsmOut(cf) ==
   [exp |-> [other |-> [q \in 1..IProd(cf.B) |-> DefOther(cf, q)], div |-> NObs(cf), hc |-> IF cf.obj = "loo" THEN -1 ELSE 0],
@@ -283,12 +306,19 @@ RationalOK == (Part = "rational" /\ out # <<>>) => (out.pd /\ out.looAgree /\ ou
 PriorMenu ==
   {<<"none", "none", "none">>, <<"gamma", "gamma", "gamma">>, <<"normal", "lognormal", "gamma">>,
    <<"lognormal", "none", "normal">>, <<"none", "gamma", "none">>, <<"gamma", "normal", "lognormal">>}
+\* reg: how the priors are registered (constructor argument / register_prior by parameter name); hist: what happened to
+\* the evaluated object (fresh: built and set; copy_set: deep copy of a model, then other hyperparameters; load: a freshly
+\* built model that loaded the state_dict of a model with other hyperparameters).  Away from (ctor, fresh) the solver
+\* setting, the mean and the second stationary kernel are not varied again.
 CellOK(x) ==
   /\ x.obj = "loo" => x.lik \in {"homo", "fixed"}
   /\ x.lik = "fixed" => x.pri[3] = "none"                \* no learned noise parameter
+  /\ (x.reg # "ctor" \/ x.hist # "fresh") =>
+        (x.path = "default" /\ x.mean = "const" /\ x.kernel # "matern" /\ x.pri # <<"none", "none", "none">>)
 Cells ==
   {x \in [kernel : {"rbf", "matern", "sum"}, mean : {"const", "linear"}, lik : {"homo", "fixed", "mt0", "mt1"},
-          B : {<<>>, <<2>>}, pri : PriorMenu, obj : {"mll", "loo"}, path : {"chol_setting", "default"}] : CellOK(x)}
+          B : {<<>>, <<2>>}, pri : PriorMenu, obj : {"mll", "loo"}, path : {"chol_setting", "default"},
+          reg : {"ctor", "name"}, hist : {"fresh", "copy_set", "load"}] : CellOK(x)}
 \* the parameters whose log prior density the definition contains: <<parameter, family>>
 KernelParts(x) == IF x.kernel = "sum" THEN <<"1", "2">> ELSE <<"1">>
 CellTerms(x) ==
@@ -302,22 +332,105 @@ CellOut(x) ==
   [terms |-> CellTerms(x), tasks |-> IF x.lik \in {"mt0", "mt1"} THEN 2 ELSE 1, hc |-> IF x.obj = "loo" THEN -1 ELSE 0]
 LatticeOK == (Part = "lattice" /\ out # <<>>) => (out.tasks \in {1, 2} /\ \A i \in 1..Len(out.terms) : out.terms[i][2] # "none")
 
+\* ============================ part "history" ===================================================
+\* configuration h: arch (plain / shared), B, n, reg[k] in none | ctor | closure | name  (how the prior of slot k is registered)
+\* state: h, objs (the model objects made so far: generation of the hyperparameter values + the closure of every prior),
+\*        hist (the operations so far), ng (next unused generation)
+AllSlips == {"name_captures_self"}
+\* the assembly configuration the object is an instance of: every registered prior sits on a parameter that carries the
+\* batch shape of the objective (conventional shapes: the shape inference of _add_other_terms is not the subject here)
+HCf(h) == [arch |-> h.arch, obj |-> "mll", B |-> h.B, n |-> h.n, stub |-> 1,
+           pri |-> [k \in Slots |-> IF h.reg[k] = "none" THEN "none" ELSE IF h.B = <<>> THEN "flat" ELSE "batch"],
+           loss |-> <<"unreg", "unreg">>]
+\* what register_prior stores for object o.  kind: a bound method of the module (constructor form: self._x_param) or a
+\* plain function; reads: the module it is CALLED with (closure(module)) or the module it remembers
+MkClosure(form, o, slips) ==
+  CASE form = "ctor"    -> [kind |-> "method", reads |-> "arg", self |-> o]
+    [] form = "closure" -> [kind |-> "function", reads |-> "arg", self |-> o]
+    [] form = "name"    -> [kind |-> "function", reads |-> IF "name_captures_self" \in slips THEN "self" ELSE "arg", self |-> o]
+    [] OTHER            -> [kind |-> "none", reads |-> "arg", self |-> o]
+NewObj(h, o, g) == [gen |-> g, cl |-> [k \in Slots |-> MkClosure(h.reg[k], o, Slips)]]
+\* copy.deepcopy / pickle: a bound method is rebuilt around the copy of its module, a function is kept as it is
+Rebind(cl, i, j) == IF cl.kind = "method" /\ cl.self = i THEN [cl EXCEPT !.self = j] ELSE cl
+Op(name, i, how) == [op |-> name, on |-> i, how |-> how]
+
+\* how in SetHows: "setter" (the public properties), "raw" (in place on the raw parameters through the inverse transform),
+\* "state_dict" (the object loads, in place, the state_dict of a scratch model that has the new values)
+HSet(s, i, how) == [s EXCEPT !.objs[i].gen = s.ng, !.ng = s.ng + 1, !.hist = Append(@, Op("set", i, how))]
+HClone(s, i, name) ==
+  LET j == Len(s.objs) + 1
+  IN [s EXCEPT !.objs = Append(@, [gen |-> s.objs[i].gen, cl |-> [k \in Slots |-> Rebind(s.objs[i].cl[k], i, j)]]),
+               !.hist = Append(@, Op(name, i, "-"))]
+\* a model built the same way (its own registrations) that loads the state_dict of object i
+HLoad(s, i) ==
+  LET j == Len(s.objs) + 1
+  IN [s EXCEPT !.objs = Append(@, NewObj(s.h, j, s.objs[i].gen)), !.hist = Append(@, Op("load", i, "-"))]
+\* the function register_prior makes for a parameter name is local to it and cannot be pickled (finding of C18): pickling is
+\* enumerated for models without name-registered priors
+Picklable(h) == \A k \in Slots : h.reg[k] # "name"
+LastSetOn(s) == IF s.hist # <<>> /\ s.hist[Len(s.hist)].op = "set" THEN s.hist[Len(s.hist)].on ELSE 0
+HSucc(s) ==
+  LET os == 1..Len(s.objs) room == Len(s.objs) < MaxObjs
+  IN (IF s.ng <= MaxGen THEN {HSet(s, i, how) : i \in os \ {LastSetOn(s)}, how \in SetHows} ELSE {})
+     \cup (IF room THEN {HClone(s, i, "copy") : i \in os} \cup {HLoad(s, i) : i \in os} ELSE {})
+     \cup (IF room /\ Picklable(s.h) THEN {HClone(s, i, "pickle") : i \in os} ELSE {})
+
+\* ---- what the objective of object o contains
+\* log prior density of slot k as seen by batch element q when the hyperparameters have generation g
+HPrior(cf, k, q, g) ==
+  LET t == IProd(SiteTail(cf.arch, k)) own == IF cf.pri[k] = "batch" THEN q - 1 ELSE 0
+  IN Pow10(k - 1) * ISum([e \in 1..t |-> own + e + g])
+\* definition: every registered prior at the current value of the parameter of THIS object
+HDefOther(s, o, q) ==
+  LET cf == HCf(s.h) ps == PriorSites(cf) IN ISum([i \in 1..Len(ps) |-> HPrior(cf, ps[i], q, s.objs[o].gen)])
+\* code: named_priors() of object o yields (module, prior, closure); the term is prior.log_prob(closure(module))
+HReader(o, cl) == IF cl.reads = "arg" THEN o ELSE cl.self
+HCodeOther(s, o, q) ==
+  LET cf == HCf(s.h) ps == CodePriors(cf, Repairs)
+  IN ISum([i \in 1..Len(ps) |-> HPrior(cf, ps[i], q, s.objs[HReader(o, s.objs[o].cl[ps[i]])].gen)])
+HistOut(s) ==
+  LET nb == IProd(s.h.B)
+  IN [objs |-> [o \in 1..Len(s.objs) |->
+                  [gen |-> s.objs[o].gen,
+                   exp |-> [q \in 1..nb |-> HDefOther(s, o, q)],
+                   code |-> [q \in 1..nb |-> HCodeOther(s, o, q)],
+                   reads |-> [k \in Slots |-> HReader(o, s.objs[o].cl[k])]]],
+      \* the objective object (ExactMarginalLogLikelihood / LeaveOneOutPseudoLikelihood) made when the model object came into
+      \* existence - before the register_prior calls that follow construction and before every later operation - and the one
+      \* made when the objective is evaluated: exp is the observation of both
+      made |-> <<"built", "evaluated">>,
+      div |-> s.h.n, conventional |-> ShapeConventional(HCf(s.h))]
+HistDomain ==
+  {[h |-> h, objs |-> <<NewObj(h, 1, 0)>>, hist |-> <<>>, ng |-> 1] :
+     h \in [arch : Archs \ {"mtask"}, B : Batches, n : Ns, reg : RegMenu]}
+\* each prior term is evaluated at the CURRENT constrained value of the parameter of THIS model, for every live object
+HistoryOK ==
+  (Part = "history") =>
+     /\ out.conventional
+     /\ \A o \in 1..Len(out.objs) : out.objs[o].code = out.objs[o].exp
+\* (stronger, about the closures themselves) no registered closure of an object reads another object
+ReadsThis == (Part = "history") => \A o \in 1..Len(out.objs) : \A k \in Slots : out.objs[o].reads[k] = o
+
 \* ============================ machine =========================================================
 Domain ==
   CASE Part = "assembly" -> AsmConfigs
     [] Part = "sum"      -> SumConfigs
     [] Part = "rational" -> Instances
     [] Part = "lattice"  -> Cells
+    [] Part = "history"  -> HistDomain
 OutOf(x) ==
   CASE Part = "assembly" -> AsmOut(x)
     [] Part = "sum"      -> SumOut(x)
     [] Part = "rational" -> RatOut(x)
     [] Part = "lattice"  -> CellOut(x)
+    [] Part = "history"  -> HistOut(x)
 
-Init == c \in Domain /\ out = <<>>
+Init == c \in Domain /\ out = IF Part = "history" THEN HistOut(c) ELSE <<>>
 \* every case is evaluated in a step of its own so that TLC's workers share the cases
-Evaluate == out = <<>> /\ out' = OutOf(c) /\ UNCHANGED c
-Next == Evaluate \/ UNCHANGED vars
+Evaluate == Part # "history" /\ out = <<>> /\ out' = OutOf(c) /\ UNCHANGED c
+\* part "history": one operation on one of the model objects; the observation is re-made in every state
+Operate == Part = "history" /\ Len(c.hist) < HistLen /\ \E s2 \in HSucc(c) : c' = s2 /\ out' = HistOut(s2)
+Next == Evaluate \/ Operate \/ UNCHANGED vars
 
 Spec == Init /\ [][Next]_vars
 =============================================================================
